@@ -623,3 +623,17 @@ package loader
 //@   ensures lex.lexEventType != lexeme.LiteralBegin && lex.lexEventType != lexeme.LiteralEnd ==> panics && typeis(pv, errors.ErrorCode) && unbox(pv, errors.ErrorCode) == errors.ErrLiteralValueExpected
 //@   ensures lex.lexEventType == lexeme.LiteralEnd && !old(knownRuleName(ruleNameText(lexBytes(s.ruleNameLex))))
 //@           ==> panics && typeis(pv, errors.DocumentError) && unbox(pv, errors.DocumentError).code == errors.ErrUnknownRule && unbox(pv, errors.DocumentError).index == old(s.ruleNameLex.begin)
+
+// C08/C03: "type references are not combined with foreign rules": next to a type
+// reference only optional and nullable may stand; a node that can have children (or a
+// hand-written reference on a reference value) cannot carry one
+//@ func (schemaCompiler).typeConstraintForUserType(node, typeConstraint, val)
+//@   props C08 C03
+//@   requires isNode(node) && consReady(node) && typeConstraint != nil && len(val) > 0
+//@   maypanic
+//@   modifies *
+//@   ensures old(len(consOf(node).order) - (hasRule(node, constraint.OptionalConstraintType) ? 1 : 0) - (hasRule(node, constraint.NullableConstraintType) ? 1 : 0)) != 1
+//@           ==> panics && typeis(pv, errors.ErrorCode) && unbox(pv, errors.ErrorCode) == errors.ErrCannotSpecifyOtherRulesWithTypeReference
+//@   ensures old(len(consOf(node).order) - (hasRule(node, constraint.OptionalConstraintType) ? 1 : 0) - (hasRule(node, constraint.NullableConstraintType) ? 1 : 0)) == 1
+//@           && (isBranch(node) || (typeis(node, *schema.MixedValueNode) && old(typeConstraint.source) != jschema.RuleASTNodeSourceGenerated))
+//@           ==> panics && typeis(pv, errors.ErrorCode) && unbox(pv, errors.ErrorCode) == errors.ErrInvalidChildNodeTogetherWithTypeReference
